@@ -205,6 +205,55 @@ Fixpoint skip_case (ts : list token) (depth : nat) (acc : list token) : option (
   | t :: r => skip_case r depth (acc ++ [t])
   end.
 
+(* FILTER ( ... ), WITHIN GROUP ( ... ), OVER ( ... ) | OVER name after a function call *)
+Fixpoint call_suffix (fuel : nat) (ts : list token) (acc : list token) : list token * list token :=
+  match fuel with
+  | O => (acc, ts)
+  | S n =>
+      let grp (kw : list token) (r : list token) :=
+        match r with
+        | (TSelf c as o) :: r1 =>
+            if Ascii.eqb c "(" then
+              match skip_balanced r1 0 [] with
+              | Some (inner, cl :: r2) => Some (kw ++ o :: inner ++ [cl], r2)
+              | _ => None
+              end
+            else None
+        | _ => None
+        end in
+      match ts with
+      | (TWord w _ as t) :: r =>
+          let u := upper w in
+          if String.eqb u "FILTER" then
+            match grp [t] r with Some (g, r2) => call_suffix n r2 (acc ++ g) | None => (acc, ts) end
+          else if String.eqb u "OVER" then
+            match grp [t] r with
+            | Some (g, r2) => call_suffix n r2 (acc ++ g)
+            | None => match r with (TWord _ _ as nm) :: r2 => call_suffix n r2 (acc ++ [t; nm]) | _ => (acc, ts) end
+            end
+          else if String.eqb u "WITHIN" then
+            match r with
+            | (TWord g _ as t2) :: r1 =>
+                if String.eqb (upper g) "GROUP" then
+                  match grp [t; t2] r1 with Some (gg, r2) => call_suffix n r2 (acc ++ gg) | None => (acc, ts) end
+                else (acc, ts)
+            | _ => (acc, ts)
+            end
+          else (acc, ts)
+      | _ => (acc, ts)
+      end
+  end.
+
+Definition with_suffix (ts : list token) (res : option (rexpr * list token)) : option (rexpr * list token) :=
+  match res with
+  | Some (p, rest) =>
+      match call_suffix 4 rest [] with
+      | ([], _) => res
+      | (sfx, rest') => Some (PAtom (firstn (length ts - length rest) ts ++ sfx), rest')
+      end
+  | None => None
+  end.
+
 Fixpoint parse_expr (fuel : nat) (minl : nat) (ts : list token) {struct fuel} : option (rexpr * list token) :=
   match fuel with
   | O => None
@@ -245,6 +294,7 @@ with parse_prefix (fuel : nat) (ts : list token) {struct fuel} : option (rexpr *
             match r with
             | TSelf c :: r' =>
                 if Ascii.eqb c "(" then
+                  with_suffix ts (
                   let fallback := match skip_balanced r' 0 [] with
                                   | Some (inner, _ :: r3) => Some (PAtom (t :: TSelf c :: inner ++ [TSelf ")"]), r3)
                                   | _ => None
@@ -259,7 +309,7 @@ with parse_prefix (fuel : nat) (ts : list token) {struct fuel} : option (rexpr *
                          | Some (l, TSelf e :: r3) => if Ascii.eqb e ")" then Some (PCall w l, r3) else fallback
                          | _ => fallback
                          end
-                  end
+                  end)
                 else let (p, r2) := take_path n r [t] in Some (PAtom p, r2)
             | TStr s :: r' => if String.eqb u "INTERVAL" then Some (PAtom [t; TStr s], r') else Some (PAtom [t], r)
             | _ => Some (PAtom [t], r)
